@@ -3,14 +3,32 @@ from pyg_base._types import is_primitive
 from pyg_base._decorators import wrapper, getargs
 
 _cache = 'cache'
+class _list(tuple):
+    """
+    the hashable stand-in for a list: equal only to the stand-in of an equal list,
+    so that f([1]), f((1,)) and f({...}) do not share a cache entry
+    """
+    def __eq__(self, other):
+        return type(other) is type(self) and tuple.__eq__(self, other)
+    def __ne__(self, other):
+        return not self == other
+    def __hash__(self):
+        return hash((type(self).__name__, tuple.__hash__(self)))
+
+class _dict(_list):
+    """the hashable stand-in for a dict"""
+    pass
+
 def _prehash(value):
-    if isinstance(value, (tuple,list)):
+    if isinstance(value, tuple):
         return tuple([_prehash(v) for v in value])
+    elif isinstance(value, list):
+        return _list([_prehash(v) for v in value])
     elif isinstance(value, dict):
         try:
-            return tuple(sorted([(k, _prehash(v)) for k, v in value.items()]))
+            return _dict(sorted([(k, _prehash(v)) for k, v in value.items()]))
         except TypeError:
-            return tuple([(k, _prehash(v)) for k, v in value.items()])
+            return _dict([(k, _prehash(v)) for k, v in value.items()])
     else:
         return value
 
@@ -36,7 +54,7 @@ class cache_func(wrapper):
 
     """
     def _key(self, *args, **kwargs):
-        return _prehash((args, kwargs))
+        return (_prehash(args), tuple(_prehash(kwargs)))
 
     def wrapped(self, *args, **kwargs):
         key = self._key(*args, **kwargs)
